@@ -2,6 +2,8 @@
 
 from __future__ import annotations
 
+import inspect
+from contextlib import suppress
 from typing import TYPE_CHECKING
 
 from liquid2.exceptions import TemplateNotFoundError
@@ -35,11 +37,29 @@ class ChoiceLoader(BaseLoader):
         **kwargs: object,
     ) -> TemplateSource:
         """Get source information for a template."""
-        for loader in self.loaders:
+        for i, loader in enumerate(self.loaders):
             try:
-                return loader.get_source(env, template_name, context=context, **kwargs)
+                source = loader.get_source(
+                    env, template_name, context=context, **kwargs
+                )
             except TemplateNotFoundError:
-                pass
+                continue
+
+            uptodate = source.uptodate
+            if i == 0 or uptodate is None:
+                return source
+
+            earlier = self.loaders[:i]
+
+            def _uptodate() -> bool:
+                # Stale if a loader with a higher priority has the template now.
+                for other in earlier:
+                    with suppress(TemplateNotFoundError):
+                        other.get_source(env, template_name, context=context, **kwargs)
+                        return False
+                return uptodate() is True  # type: ignore[misc]
+
+            return source._replace(uptodate=_uptodate)
 
         raise TemplateNotFoundError(template_name)
 
@@ -52,13 +72,34 @@ class ChoiceLoader(BaseLoader):
         **kwargs: object,
     ) -> TemplateSource:
         """Get source information for a template."""
-        for loader in self.loaders:
+        for i, loader in enumerate(self.loaders):
             try:
-                return await loader.get_source_async(
+                source = await loader.get_source_async(
                     env, template_name, context=context, **kwargs
                 )
             except TemplateNotFoundError:
-                pass
+                continue
+
+            uptodate = source.uptodate
+            if i == 0 or uptodate is None:
+                return source
+
+            earlier = self.loaders[:i]
+
+            async def _uptodate() -> bool:
+                # Stale if a loader with a higher priority has the template now.
+                for other in earlier:
+                    with suppress(TemplateNotFoundError):
+                        await other.get_source_async(
+                            env, template_name, context=context, **kwargs
+                        )
+                        return False
+                fresh = uptodate()
+                if inspect.isawaitable(fresh):
+                    fresh = await fresh
+                return fresh is True
+
+            return source._replace(uptodate=_uptodate)
 
         raise TemplateNotFoundError(template_name)
 
